@@ -51,7 +51,18 @@ def cases(tier, seed):
     return out
 
 
-def _write(path, config, seq, sessions=None, mode="a", read_between=False):
+ANALYSIS = "ranked"
+
+
+def _analysis_rows(n):
+    """event i -> (row, payload): the rows of the analysis dataset are filled in an order different from the event order"""
+    perm = [(3 * i + 2) % n if n % 3 else (i + n // 2) % n for i in range(n)]
+    if sorted(perm) != list(range(n)):
+        perm = list(range(n))[::-1]
+    return [(perm[i], [float(i), 10.0 * i + 0.5]) for i in range(n)]
+
+
+def _write(path, config, seq, sessions=None, mode="a", read_between=False, analysis=False):
     """Write EVENTS[seq] to path; `sessions` = set of positions after which the file is closed and re-opened for appending;
     with `read_between` the file is read through (by this same process) between two sessions."""
     from pyrex.io import File
@@ -67,13 +78,31 @@ def _write(path, config, seq, sessions=None, mode="a", read_between=False):
                     with File(path, "r") as f:
                         _obs_list(f)
                 drv.open(mode)
+        if analysis:
+            # an analysis dataset with one row per event, linked to the events out of order (e.g. rows ranked by a score)
+            rows = _analysis_rows(len(seq))
+            ds = drv.writer.create_analysis_dataset(ANALYSIS, shape=(len(seq), 2), dtype=np.float64)
+            for i, (row, payload) in enumerate(rows):
+                ds[row] = payload
+                drv.writer.add_analysis_indices(ANALYSIS, i, row)
     finally:
         drv.close()
     return drv
 
 
+def _obs(ev):
+    o = hm.observe(ev)
+    try:
+        o["analysis"] = np.asarray(ev.get_data(ANALYSIS), dtype=float).tolist()
+    except Exception as e:
+        if src.exception_origin(e) != "library":
+            raise
+        o["analysis"] = "none"          # no such dataset in this file (or the reader refuses): the same for every access path
+    return o
+
+
 def _obs_list(it):
-    return [hm.observe(ev) for ev in it]
+    return [_obs(ev) for ev in it]
 
 
 def _has_exc(obs):
@@ -98,10 +127,15 @@ def evaluate(case):
         seq = SEQS[case["seq"]]
         n = len(seq)
         path = os.path.join(tmp, "base.h5")
-        drv = _write(path, config, seq)
+        with_analysis = case["kind"] in ("chunks", "index", "slices", "mixed")
+        drv = _write(path, config, seq, analysis=with_analysis)
         with File(path, "r") as f:
             ref = _obs_list(f)
             nlen = len(f)
+        if with_analysis and len(ref) == n:
+            for k, (row, payload) in enumerate(_analysis_rows(n)):
+                if ref[k].get("analysis") != [payload]:
+                    fail("sequential-analysis", "sequential pass: event %d reads analysis data %r, linked row holds %r" % (k, ref[k].get("analysis"), payload))
         if nlen != n or len(ref) != n:
             fail("sequential", "sequential pass returns %d events, len() %d, %d written" % (len(ref), nlen, n))
             return {"n": 1, "nontrivial": [], "fails": fails, "states": 1, "transitions": n}
@@ -143,7 +177,7 @@ def evaluate(case):
             with File(path, "r") as f:
                 for i in range(-n, n):
                     try:
-                        got = [hm.observe(f[i])]
+                        got = [_obs(f[i])]
                     except Exception as e:
                         if src.exception_origin(e) != "library":
                             raise
@@ -202,14 +236,14 @@ def evaluate(case):
                                 if op[0] == "idx":
                                     ev = f[op[1]]
                                     held.append((op[1] % n, ev))
-                                    cmp(label, [hm.observe(ev)], [op[1] % n], ops=list(q))
+                                    cmp(label, [_obs(ev)], [op[1] % n], ops=list(q))
                                 elif op[0] == "iter":
                                     cmp(label, _obs_list(f), list(range(n)), ops=list(q))
                                 elif op[0] == "iter_partial":
                                     # (an iterator is a cursor: `next` hands back the iterator itself, positioned on the next
                                     # event -- by design; so each event is observed when it is reached and none is held)
                                     it = iter(f)
-                                    cmp(label, [hm.observe(next(it)) for _ in range(op[1])], list(range(op[1])), ops=list(q))
+                                    cmp(label, [_obs(next(it)) for _ in range(op[1])], list(range(op[1])), ops=list(q))
                                 elif op[0] == "slice":
                                     want = list(range(n))[op[1]:op[2]:op[3]]
                                     cmp(label, _obs_list(f[op[1]:op[2]:op[3]]), want, ops=list(q))
@@ -218,7 +252,7 @@ def evaluate(case):
                                     if len(f) != n:
                                         fail("access-count", "%s: len(file) = %d, %d events" % (label, len(f), n), ops=list(q))
                             for i_, ev in held:
-                                cmp(label0 + ", event %d handed out earlier and observed at the end" % i_, [hm.observe(ev)], [i_], ops=list(q))
+                                cmp(label0 + ", event %d handed out earlier and observed at the end" % i_, [_obs(ev)], [i_], ops=list(q))
                     except Exception as e:
                         if src.exception_origin(e) != "library":
                             raise
